@@ -138,7 +138,8 @@ CHECKS.update({
              "_sbase_notes_dict, _sbase_annotations, _sbml_to_model, _parse_notes_dict, _parse_annotations with symbolic stoichiometric "
              "coefficients, bounds (finite / infinite / zero / equal to the configured defaults, defaults +-1000 or +-10) and objective "
              "coefficient, direction, charges, formulas, names, compartments, notes, annotations (incl. an identifier contained in "
-             "another), gene rules, groups: export and import do not fail, writing leaves the model alone, the full observation incl. "
+             "another), gene rules, groups (reactions, metabolites, genes as members), plain identifiers or identifiers that need escaping "
+             "wherever they are referred to (species references, gene rules, flux objectives, group members): export and import do not fail, writing leaves the model alone, the full observation incl. "
              "the LP is proved equal after the round trip and a second round trip is the identity.  (2) Third-party documents built "
              "through the libsbml API in shapes the writer never produces (species referenced twice on one side or on both sides, "
              "shared / own / missing bound parameters, two flux objectives, minimisation) with symbolic stoichiometries, parameter "
@@ -152,7 +153,7 @@ CHECKS.update({
         note="The stand-in is part of the claim for (1) and (2): identifier / SId / metaid / SBO / formula validation, unset values, "
              "CVTerm merging, infix gene associations, package plug-ins as observed on libsbml 5.20 (DESIGN 10.5); the XML text layer "
              "(17-digit number formatting, escaping), validity of the written document and the libsbml parser are exercised on witness "
-             "replays only.  Identifiers inside documents are plain (the escaping kernel is (3)); notes values are plain strings; "
+             "replays only.  Notes values are plain strings; "
              "model history / creators, kinetic-law legacy encodings, fbc-v1 conversion and files on disk are outside.  CrossHair's "
              "'Not confirmed' is reported as 'no counterexample within the budget', not as exhaustive.  Known finding: ids in which an "
              "underscore meets digits. " + NOTE_COMMON, ref="10.5",
